@@ -1,6 +1,7 @@
 package main
 
 import (
+	"strings"
 	"fmt"
 	"math/rand"
 )
@@ -69,10 +70,28 @@ func genReadsCase(r *rand.Rand, cfg Cfg) Case {
 }
 
 func famReads(f *FamCtx) {
-	f.Report.Rule = "persisted trees on a recording store without cache; LoadMast / Clone / Get / Insert (new, update, equal) / Delete (hit, miss, wrong value) on keys present and absent of every layer, from fully persisted and from partly modified trees; cursor moves (Ceil, Min, Max, Forward, Backward) with the names each one reads compared with the model (`newLoads`) and at most one read per level and call; the multiset of names passed to Persist.Load by each call is compared with the model's load trace and with C16's bounds; non-trivial = reached height >= 1 and changed height"
+	f.Report.Rule = "persisted trees on a recording store without cache; LoadMast / Clone / Get / Insert (new, update, equal) / Delete (hit, miss, wrong value) on keys present and absent of every layer, from fully persisted and from partly modified trees; cursor moves (Ceil, Min, Max, Forward, Backward) with the names each one reads compared with the model (`newLoads`) and at most one read per level and call; the multiset of names passed to Persist.Load by each call is compared with the model's load trace and with C16's bounds; one case in eight repeats every lookup / open / clone with each read position failing once (the failed call stays within the bound, the retry gives the result); non-trivial = reached height >= 1 and changed height"
 	f.Gen = func() Case { return genReadsCase(f.Rand, RandCfg(f.Rand)) }
 	n := f.N(250, 10000)
 	for i := 0; i < n; i++ {
+		if i%8 == 7 {
+			// the same calls with every read position failing in turn: a call that fails because a
+			// read failed has made no more reads than the bound allows (and a retry gives the result)
+			c := f.Gen()
+			var ops []string
+			for _, op := range c.Ops {
+				t := strings.Fields(op)
+				switch t[0] {
+				case "getl", "loadl", "clonel":
+					ops = append(ops, "faultall load "+op)
+				default:
+					ops = append(ops, op)
+				}
+			}
+			c.Ops = ops
+			f.RunTreeCase(c, faultRunner, multiLevel)
+			continue
+		}
 		f.RunTreeCase(f.Gen(), exactRunner, multiLevel)
 	}
 }
